@@ -272,6 +272,35 @@ def run_one(ch, cfg):
         else:
             viol.append(("verdict/%s:%s" % ("accepted-invalid" if accepts else "mismatch",
                                             kind.split(":")[0]), desc))
+    # ---- the same certificate object asked again, under another root or at another instant: the
+    # verdict is a function of (certificate, root, instant), whatever the object was asked before
+    if isinstance(rn, dict) and isinstance(fn, dict) and rn == fn and not viol:
+        for j in range(ch.draw(3, "ask-again")):
+            rk = ch.pick(["other-root", "same", "genuine-root"], "again.root")
+            ck = ch.pick(["same", "far-future", "far-past", "now"], "again.clock")
+            r2 = {"other-root": sgxpki.Pki(b"again" + bytes([j]), w.clock.now).root_der,
+                  "same": root_der, "genuine-root": pki.root_der}[rk]
+            when2 = {"same": when, "far-future": when + 400 * 365 * 86400.0,
+                     "far-past": when - 60 * 365 * 86400.0, "now": w.clock.start}[ck]
+            w.clock.now = when2
+            try:
+                real2 = _norm(cert.validate_and_get_values(HSMCertificateV2ElementX509({
+                    "name": "sgx_root", "message": base64.b64encode(r2).decode(),
+                    "signed_by": "sgx_root"})))
+            except Exception as e:
+                real2 = "%s: %s" % (type(e).__name__, str(e)[:80])
+            ref2 = _norm(REF.validate(rc, r2, when2))
+            accepts2 = isinstance(real2, dict) and isinstance(ref2, dict) and any(
+                real2[t][0] and not ref2.get(t, (False,))[0] for t in real2)
+            der2 = kind in ("corrupted", "link") or (kind == "bytes:message" and any(
+                x.get("name") == elem_name and x.get("type") == "x509_pem"
+                for x in (stored or {}).get("elements", [])))
+            if real2 != ref2 and (accepts2 or not der2):
+                viol.append(("history/same-object-asked-again",
+                             "%s; asked again (call %d) under root %s at clock %s: real %s, reference %s"
+                             % (desc, j + 2, rk, ck, _show(real2) if isinstance(real2, dict) else real2,
+                                _show(ref2) if isinstance(ref2, dict) else ref2)))
+                break
     if cls == "genuine" and clock_cls == "inside" and windows is None and \
             isinstance(rn, dict) and not rn.get("quote", (False,))[0]:
         viol.append(("verdict/genuine-rejected", desc))
@@ -331,6 +360,11 @@ X = "admin.certificate_v2.HSMCertificateV2ElementX509"
 K = "admin.certificate_v2.HSMCertificateV2ElementSGXAttestationKey"
 Q = "admin.certificate_v2.HSMCertificateV2ElementSGXQuote"
 MUTANTS = {
+    "verdicts-remembered-on-the-object": _m(
+        "admin.certificate_v1.HSMCertificate", "validate_and_get_values",
+        "if not current.is_valid(current_certifier):",
+        "if not (current.name in self.__dict__.setdefault('_v', set()) or "
+        "(current.is_valid(current_certifier) and not self._v.add(current.name))):"),
     "validity-not-checked": _m(
         X, "is_valid",
         "if subject.not_valid_before_utc > now or subject.not_valid_after_utc < now:", "if False:"),
